@@ -3,8 +3,11 @@
 use crate::case::*;
 use linfa::Float;
 use linfa_nn::distance::{Distance, L1Dist, L2Dist, LInfDist, LpDist};
-use linfa_nn::{CommonNearestNeighbour, NearestNeighbour, NearestNeighbourIndex};
-use ndarray::{Array1, Array2, ArrayView1};
+use linfa_nn::{
+    BallTree, BallTreeIndex, BuildError, CommonNearestNeighbour, KdTree, KdTreeIndex, LinearSearch, LinearSearchIndex, NearestNeighbour,
+    NearestNeighbourIndex,
+};
+use ndarray::{s, Array1, Array2, ArrayBase, ArrayView1, Data, Ix2, ShapeBuilder};
 use vengine::gen::idx;
 use vengine::Obs;
 
@@ -20,11 +23,7 @@ pub const BAND_EPS: f64 = 8.0;
 /// (mean of up to n coordinates of magnitude <= X), which matters only when M itself is a few ulps of X.
 pub const GEO_EPS: f64 = 8.0;
 
-const KINDS: [(&str, CommonNearestNeighbour); 3] = [
-    ("linear", CommonNearestNeighbour::LinearSearch),
-    ("kdtree", CommonNearestNeighbour::KdTree),
-    ("balltree", CommonNearestNeighbour::BallTree),
-];
+const KIND_NAMES: [&str; 3] = ["linear", "kdtree", "balltree"];
 
 fn f64_of<F: Float>(x: F) -> f64 {
     x.to_f64().unwrap_or(f64::NAN)
@@ -208,70 +207,199 @@ fn structure<F: Float>(
     Some(ids)
 }
 
+type IndexBox<'a, F> = Box<dyn 'a + Send + Sync + NearestNeighbourIndex<F>>;
+
+/// Builds one index kind through one public entry point.
+fn build_entry<'a, F: Float, DT: Data<Elem = F>, D: 'a + Distance<F>>(
+    kind: &str,
+    entry: Entry,
+    batch: &'a ArrayBase<DT, Ix2>,
+    leaf: usize,
+    dist: D,
+) -> Result<IndexBox<'a, F>, BuildError> {
+    match (entry, kind) {
+        (Entry::Enum, "linear") => CommonNearestNeighbour::LinearSearch.from_batch_with_leaf_size(batch, leaf, dist),
+        (Entry::Enum, "kdtree") => CommonNearestNeighbour::KdTree.from_batch_with_leaf_size(batch, leaf, dist),
+        (Entry::Enum, _) => CommonNearestNeighbour::BallTree.from_batch_with_leaf_size(batch, leaf, dist),
+        (Entry::Struct, "linear") => LinearSearch::new().from_batch_with_leaf_size(batch, leaf, dist),
+        (Entry::Struct, "kdtree") => KdTree::new().from_batch_with_leaf_size(batch, leaf, dist),
+        (Entry::Struct, _) => BallTree::new().from_batch_with_leaf_size(batch, leaf, dist),
+        (Entry::Direct, "linear") => LinearSearchIndex::new(batch, dist).map(|v| Box::new(v) as IndexBox<'a, F>),
+        (Entry::Direct, "kdtree") => KdTreeIndex::new(batch, leaf, dist).map(|v| Box::new(v) as IndexBox<'a, F>),
+        (Entry::Direct, _) => BallTreeIndex::new(batch, leaf, dist).map(|v| Box::new(v) as IndexBox<'a, F>),
+        (Entry::EnumDefaultLeaf, "linear") => CommonNearestNeighbour::LinearSearch.from_batch(batch, dist),
+        (Entry::EnumDefaultLeaf, "kdtree") => CommonNearestNeighbour::KdTree.from_batch(batch, dist),
+        (Entry::EnumDefaultLeaf, _) => CommonNearestNeighbour::BallTree.from_batch(batch, dist),
+        (Entry::StructDefaultLeaf, "linear") => LinearSearch::new().from_batch(batch, dist),
+        (Entry::StructDefaultLeaf, "kdtree") => KdTree::new().from_batch(batch, dist),
+        (Entry::StructDefaultLeaf, _) => BallTree::new().from_batch(batch, dist),
+    }
+}
+
+/// does this entry point receive the leaf size at all?
+fn takes_leaf(entry: Entry, kind: &str) -> bool {
+    match entry {
+        Entry::Enum | Entry::Struct => true,
+        Entry::Direct => kind != "linear",
+        Entry::EnumDefaultLeaf | Entry::StructDefaultLeaf => false,
+    }
+}
+
+fn entry_name(e: Entry) -> &'static str {
+    match e {
+        Entry::Enum => "enum",
+        Entry::Struct => "struct",
+        Entry::Direct => "direct",
+        Entry::EnumDefaultLeaf => "enum-from_batch",
+        Entry::StructDefaultLeaf => "struct-from_batch",
+    }
+}
+
+/// Calls into an index; a panic is a failure `panic:<what>` unless it is the k-d tree's documented
+/// "views should be contiguous" panic on an input that really is not contiguous.
+fn call_index<T>(obs: &mut Obs, what: &str, kind: &str, kd_layout_excuse: bool, f: impl FnOnce() -> T) -> Option<T> {
+    match vengine::guard(f) {
+        Ok(v) => Some(v),
+        Err(m) => {
+            if kind == "kdtree" && kd_layout_excuse && m.contains("contiguous") {
+                obs.class("kd_documented_layout_panic");
+            } else {
+                obs.fail(format!("panic:{what}"), format!("panicked: {m}"));
+            }
+            None
+        }
+    }
+}
+
 fn run<F: Float, D: Distance<F>>(c: &Case, dist: D, powf_metric: bool, obs: &mut Obs) {
+    let n = c.points.len();
+    let dim = c.dim;
+    let at = |i: usize, j: usize| F::cast(c.points.get(i).and_then(|r| r.get(j)).copied().unwrap_or(0.0));
+    // canonical copy (standard layout) for the oracle; the builders get the requested memory layout
+    let canon: Array2<F> = Array2::from_shape_fn((n, dim), |(i, j)| at(i, j));
+    let junk = F::cast(-777.25);
+    match c.layout {
+        Layout::RowMajor => run_on(c, &canon, &canon, dist, powf_metric, obs),
+        Layout::ColMajorOwned => {
+            let store: Array2<F> = Array2::from_shape_fn((n, dim).f(), |(i, j)| at(i, j));
+            run_on(c, &canon, &store, dist, powf_metric, obs)
+        }
+        Layout::TransposedView => {
+            let store: Array2<F> = Array2::from_shape_fn((dim, n), |(j, i)| at(i, j));
+            let view = store.t();
+            run_on(c, &canon, &view, dist, powf_metric, obs)
+        }
+        Layout::StridedRows => {
+            let store: Array2<F> = Array2::from_shape_fn((2 * n, dim), |(i, j)| if i % 2 == 0 { at(i / 2, j) } else { junk });
+            let view = store.slice(s![..;2, ..]);
+            run_on(c, &canon, &view, dist, powf_metric, obs)
+        }
+        Layout::ReversedRows => {
+            let store: Array2<F> = Array2::from_shape_fn((n, dim), |(i, j)| at(n - 1 - i, j));
+            let view = store.slice(s![..;-1, ..]);
+            run_on(c, &canon, &view, dist, powf_metric, obs)
+        }
+    }
+}
+
+/// `batch` is the standard-layout copy the oracle reads; `given` holds the same logical rows in the layout under test.
+fn run_on<F: Float, D: Distance<F>, DT: Data<Elem = F>>(
+    c: &Case,
+    batch: &Array2<F>,
+    given: &ArrayBase<DT, Ix2>,
+    dist: D,
+    powf_metric: bool,
+    obs: &mut Obs,
+) {
     classify_case(c, obs);
     let n = c.points.len();
     let dim = c.dim;
     let eps = f64_of(F::epsilon());
-    let batch: Array2<F> = Array2::from_shape_fn((n, dim), |(i, j)| {
-        F::cast(c.points.get(i).and_then(|r| r.get(j)).copied().unwrap_or(0.0))
+    obs.class(match c.layout {
+        Layout::RowMajor => "layout_row_major",
+        Layout::ColMajorOwned => "layout_col_major_owned",
+        Layout::TransposedView => "layout_transposed_view",
+        Layout::StridedRows => "layout_strided_rows",
+        Layout::ReversedRows => "layout_reversed_rows",
     });
+    obs.class(match c.entry {
+        Entry::Enum => "entry_enum",
+        Entry::Struct => "entry_struct",
+        Entry::Direct => "entry_direct",
+        Entry::EnumDefaultLeaf => "entry_enum_from_batch",
+        Entry::StructDefaultLeaf => "entry_struct_from_batch",
+    });
+    if given.shape() != batch.shape() || given.iter().zip(batch.iter()).any(|(a, b)| a != b) {
+        obs.fail("harness:layout-construction", "the laid-out batch differs from the canonical one (harness bug)".to_string());
+        return;
+    }
+    // the k-d tree documents a panic unless every stored point is contiguous in memory
+    let rows_contiguous = given.rows().into_iter().all(|r| r.to_slice().is_some());
 
     // ---------------------------------------------------------------- build
-    let malformed_build = dim == 0 || c.leaf == 0;
-    let mut indices = Vec::with_capacity(3);
-    for (kind, algo) in KINDS.iter() {
-        if *kind == "kdtree" && !malformed_build && !crate::kdsim::in_probe_child() && crate::kdsim::build_recurses(&batch, c.leaf) {
-            // replaying the k-d tree's insertion sequence reaches a split that leaves one side empty (adjacent
-            // floats whose midpoint rounds onto the minimum): the real build would recurse until the stack
-            // overflows and take this process with it, so it is observed in a child process instead
-            obs.class("kd_degenerate_split_predicted");
-            match crate::kdsim::probe_build(c, "indices") {
-                crate::kdsim::Probe::Unavailable => {
-                    obs.class("kd_skipped_no_probe");
-                    continue;
+    let malformed_case = dim == 0 || c.leaf == 0;
+    // a malformed case is pushed through every public entry point, a well-formed one through the chosen one
+    let entries: Vec<Entry> = if malformed_case { ALL_ENTRIES.to_vec() } else { vec![c.entry] };
+    let mut indices: Vec<(&'static str, IndexBox<'_, F>)> = Vec::with_capacity(3);
+    for entry in entries {
+        let ename = entry_name(entry);
+        for kind in KIND_NAMES.iter().copied() {
+            let leaf_eff = if takes_leaf(entry, kind) { c.leaf } else { 16 };
+            let malformed_build = dim == 0 || leaf_eff == 0;
+            if kind == "kdtree" && !malformed_build && !crate::kdsim::in_probe_child() && crate::kdsim::build_recurses(batch, leaf_eff) {
+                // replaying the k-d tree's insertion sequence reaches a split that leaves one side empty (adjacent
+                // floats whose midpoint rounds onto the minimum): the real build would recurse until the stack
+                // overflows and take this process with it, so it is observed in a child process instead
+                obs.class("kd_degenerate_split_predicted");
+                if malformed_case {
+                    continue; // (only reachable with leaf 0 through a default-leaf entry: not probed)
                 }
-                crate::kdsim::Probe::Died(st) => {
-                    obs.fail(
-                        "crash:build:kdtree:adjacent-float-midpoint",
-                        format!(
-                            "kdtree: building the index over {n} x {dim} points with leaf size {} killed the (child) process: {st}; \
-                             a bucket whose extreme coordinates are adjacent floats is split at a midpoint that rounds onto the minimum, \
-                             so the split recurses without bound (stack overflow)",
-                            c.leaf
-                        ),
-                    );
-                    continue;
-                }
-                crate::kdsim::Probe::Survived => obs.class("kd_degenerate_split_survived"),
-            }
-        }
-        let r = obs.call(&format!("build:{kind}"), || {
-            algo.from_batch_with_leaf_size(&batch, c.leaf, dist.clone())
-        });
-        match r {
-            None => {}
-            Some(Ok(ix)) => {
-                if malformed_build {
-                    obs.fail(
-                        format!("build:malformed-accepted:{kind}"),
-                        format!("{kind}: build with {dim} columns and leaf size {} returned an index instead of an error", c.leaf),
-                    );
-                } else {
-                    indices.push((*kind, ix));
+                match crate::kdsim::probe_build(c, "indices") {
+                    crate::kdsim::Probe::Unavailable => {
+                        obs.class("kd_skipped_no_probe");
+                        continue;
+                    }
+                    crate::kdsim::Probe::Died(st) => {
+                        obs.fail(
+                            "crash:build:kdtree:adjacent-float-midpoint",
+                            format!(
+                                "kdtree: building the index over {n} x {dim} points with leaf size {leaf_eff} killed the (child) process: {st}; \
+                                 a bucket whose extreme coordinates are adjacent floats is split at a midpoint that rounds onto the minimum, \
+                                 so the split recurses without bound (stack overflow)"
+                            ),
+                        );
+                        continue;
+                    }
+                    crate::kdsim::Probe::Survived => obs.class("kd_degenerate_split_survived"),
                 }
             }
-            Some(Err(e)) => {
-                if !malformed_build {
-                    obs.fail(
-                        format!("build:spurious-error:{kind}"),
-                        format!("{kind}: well-formed build ({n} x {dim}, leaf size {}) failed: {e}", c.leaf),
-                    );
+            let r = call_index(obs, &format!("build:{kind}"), kind, !rows_contiguous, || {
+                build_entry(kind, entry, given, c.leaf, dist.clone())
+            });
+            match r {
+                None => {}
+                Some(Ok(ix)) => {
+                    if malformed_build {
+                        obs.fail(
+                            format!("build:malformed-accepted:{kind}:{ename}"),
+                            format!("{kind} via {ename}: build with {dim} columns and leaf size {} returned an index instead of an error", c.leaf),
+                        );
+                    } else if !malformed_case {
+                        indices.push((kind, ix));
+                    }
+                }
+                Some(Err(e)) => {
+                    if !malformed_build {
+                        obs.fail(
+                            format!("build:spurious-error:{kind}:{ename}"),
+                            format!("{kind} via {ename}: well-formed build ({n} x {dim}, leaf size {leaf_eff}, layout {:?}) failed: {e}", c.layout),
+                        );
+                    }
                 }
             }
         }
     }
-    if malformed_build {
+    if malformed_case {
         return;
     }
     if 4 * c.leaf < n {
@@ -279,10 +407,15 @@ fn run<F: Float, D: Distance<F>>(c: &Case, dist: D, powf_metric: bool, obs: &mut
     }
 
     // ---------------------------------------------------------------- queries
-    let xmax = rows64_max(&batch, c);
+    let xmax = rows64_max(batch, c);
     let rows64: Vec<Vec<f64>> = batch.rows().into_iter().map(|row| row.iter().map(|x| f64_of(*x)).collect()).collect();
     for (qi, q) in c.queries.iter().enumerate() {
         let qp: Array1<F> = Array1::from_iter(q.point.iter().map(|x| F::cast(*x)));
+        // the view handed to the indices: contiguous, or every second element of a doubled array
+        let qstore: Array1<F> = Array1::from_shape_fn(2 * qp.len(), |i| if i % 2 == 0 { qp[i / 2] } else { F::cast(-777.25) });
+        let qview: ArrayView1<'_, F> = if q.strided { qstore.slice(s![..;2]) } else { qp.view() };
+        let q_excuse = qview.to_slice().is_none();
+        obs.class_if(q.strided, "q_strided_view");
         obs.class(match q.class {
             QueryClass::Stored => "q_stored",
             QueryClass::Lattice => "q_lattice",
@@ -296,15 +429,15 @@ fn run<F: Float, D: Distance<F>>(c: &Case, dist: D, powf_metric: bool, obs: &mut
         if qp.len() != dim {
             obs.class("malformed_query_dimension");
             for (kind, ix) in indices.iter() {
-                if let Some(r) = obs.call(&format!("k_nearest:wrong-dimension:{kind}"), || {
-                    ix.k_nearest(qp.view(), q.k).map(|v| v.len())
+                if let Some(r) = call_index(obs, &format!("k_nearest:wrong-dimension:{kind}"), kind, q_excuse, || {
+                    ix.k_nearest(qview, q.k).map(|v| v.len())
                 }) {
                     obs.ensure(r.is_err(), &format!("knn:wrong-dimension-answered:{kind}"), || {
                         format!("{kind}: query {qi} has {} coordinates, the index {dim}; k_nearest answered with {:?} points", qp.len(), r)
                     });
                 }
-                if let Some(r) = obs.call(&format!("within_range:wrong-dimension:{kind}"), || {
-                    ix.within_range(qp.view(), F::one()).map(|v| v.len())
+                if let Some(r) = call_index(obs, &format!("within_range:wrong-dimension:{kind}"), kind, q_excuse, || {
+                    ix.within_range(qview, F::one()).map(|v| v.len())
                 }) {
                     obs.ensure(r.is_err(), &format!("range:wrong-dimension-answered:{kind}"), || {
                         format!("{kind}: query {qi} has {} coordinates, the index {dim}; within_range answered with {:?} points", qp.len(), r)
@@ -361,8 +494,8 @@ fn run<F: Float, D: Distance<F>>(c: &Case, dist: D, powf_metric: bool, obs: &mut
         // second-order term: a leaf centre (mean of up to n rounded coordinates) may lie outside the hull by ~n eps X
         let geo_tol = GEO_EPS * (dim as f64 + 8.0) * eps * (br.m + (n as f64 + 2.0) * eps * xmax * (dim as f64).sqrt());
 
-        knn_query(c, qi, q, &qp, &batch, &indices, &br, eps, geo_tol, powf_metric, obs);
-        range_query(c, qi, q, &qp, &batch, &indices, &br, &dist, eps, geo_tol, powf_metric, obs);
+        knn_query(c, qi, q, &qp, qview, q_excuse, batch, &indices, &br, eps, geo_tol, powf_metric, obs);
+        range_query(c, qi, q, &qp, qview, q_excuse, batch, &indices, &br, &dist, eps, geo_tol, powf_metric, obs);
     }
 }
 
@@ -390,6 +523,8 @@ fn knn_query<'a, F: Float>(
     qi: usize,
     q: &Query,
     qp: &Array1<F>,
+    qv: ArrayView1<'_, F>,
+    q_excuse: bool,
     batch: &Array2<F>,
     indices: &[(&'static str, Box<dyn 'a + Send + Sync + NearestNeighbourIndex<F>>)],
     br: &Brute,
@@ -418,7 +553,7 @@ fn knn_query<'a, F: Float>(
     for (kind, ix) in indices.iter() {
         // the suspected ball-tree defect gets its own call-site name so that only k = 0 is excused
         let what = if k == 0 { format!("k_nearest:{kind}:k=0") } else { format!("k_nearest:{kind}") };
-        let Some(res) = obs.call(&what, || ix.k_nearest(qp.view(), k)) else { continue };
+        let Some(res) = call_index(obs, &what, kind, q_excuse, || ix.k_nearest(qv, k)) else { continue };
         let ans = match res {
             Ok(a) => a,
             Err(e) => {
@@ -485,6 +620,8 @@ fn range_query<'a, F: Float, D: Distance<F>>(
     qi: usize,
     q: &Query,
     qp: &Array1<F>,
+    qv: ArrayView1<'_, F>,
+    q_excuse: bool,
     batch: &Array2<F>,
     indices: &[(&'static str, Box<dyn 'a + Send + Sync + NearestNeighbourIndex<F>>)],
     br: &Brute,
@@ -642,7 +779,7 @@ fn range_query<'a, F: Float, D: Distance<F>>(
 
     let mut on_included: Vec<(&'static str, Vec<usize>)> = vec![];
     for (kind, ix) in indices.iter() {
-        let Some(res) = obs.call(&format!("within_range:{kind}"), || ix.within_range(qp.view(), range)) else { continue };
+        let Some(res) = call_index(obs, &format!("within_range:{kind}"), kind, q_excuse, || ix.within_range(qv, range)) else { continue };
         let ans = match res {
             Ok(a) => a,
             Err(e) => {
